@@ -573,10 +573,10 @@ def mergeClause():
         sets.append([plain[0], plain[1], plain[3], plain[4]])
     fams = set()
     budget = 900.0 if THOROUGH else 60.0
-    t0 = time.time()
+    t0 = time.thread_time()  # CPU seconds of this thread: independent of machine load
     done = 0
     for i, specs in enumerate(sets):
-        if time.time() - t0 > budget:
+        if time.thread_time() - t0 > budget:
             break
         runSet(specs, sample=(i == 8))
         done += 1
